@@ -85,6 +85,7 @@ def run(ctx):
             return
     # 2. code-faithful machine, exported and replayed; every illegal removal must be explained by a listed name
     shown = False
+    pool = []
     for mode, w, m, a in runs:
         r = ctx.tlc("MC_OptionalTags", cfg(mode, w, m, a, True, False, listed), "mc-faithful-%s-%s" % (mode, a),
                     keep_records=False)
@@ -97,6 +98,8 @@ def run(ctx):
             res = core.parallel(_replay_one, batch)
             for rec, (ok, got) in zip(batch, res):
                 ctx.traces += 1
+                if len(pool) < 400000:
+                    pool.append(rec["inp"])
                 if rec["inp"] != rec["out"]:
                     ctx.nontriv(hash(json.dumps(rec["inp"])))
                 for names in (rec["ill"].values() if isinstance(rec["ill"], dict) else rec["ill"]):
@@ -111,6 +114,21 @@ def run(ctx):
                 ctx.sample({"spec_to_code": [tok.show(t) for t in mrec["inp"]], "expected": [tok.show(t) for t in mrec["out"]]})
                 shown = True
     ctx.exhaustive = True
+    # 2b. the filter must keep no state between tokens beyond its three-token window: many exported streams are pushed
+    #     through ONE filter instance as a single concatenated stream and compared with the machine on that stream
+    ctx.rng.shuffle(pool)
+    long_traces = []
+    for i in range(0, min(len(pool), 16000 if ctx.quick else 200000), 40):
+        cat = [t for rec_inp in pool[i:i + 40] for t in rec_inp]
+        inp_real = [tok.unproj_token(t) for t in cat]
+        out = [tok.proj_token(t) for t in real_filter(inp_real)]
+        long_traces.append({"inp": cat, "out": out, "judge": False})
+    ctx.notes["concatenated_streams"] = len(long_traces)
+    consts0 = "CONSTANT KnownDefects = {%s}\n" % ",".join('"%s"' % d for d in listed)
+    for tr, rec in core.validate_traces(ctx, "Trace_OptionalTags", long_traces, "concat", consts=consts0):
+        if rec["v"] != "finding":
+            ctx.violation("filter output on a concatenated stream differs from the machine (hidden state?): %s at token %d" % (rec["v"], rec["l"]),
+                          {"kind": "trace", "source": "concatenation of MC streams", "inp": tr["inp"], "verdict": rec})
     # 3. code -> spec
     traces, meta = [], []
     for d, tb, s in streams(ctx, 800 if ctx.quick else 15000):
@@ -118,7 +136,7 @@ def run(ctx):
         out = [tok.proj_token(t) for t in real_filter(s)]
         if len(inp) != len(out):
             ctx.nontriv(d)
-        traces.append({"inp": inp, "out": out})
+        traces.append({"inp": inp, "out": out, "judge": True})
         meta.append((d, tb))
     ctx.sample({"code_to_spec_source": meta[-1][0], "tokens": [tok.show(t) for t in traces[-1]["inp"][:10]]})
     consts = "CONSTANT KnownDefects = {%s}\n" % ",".join('"%s"' % d for d in listed)
@@ -140,7 +158,7 @@ def replay(case):
     ctx = core.Ctx("C13", "quick", 0)
     listed = [d for d in DEFECTS if d in ctx.open_keys]
     consts = "CONSTANT KnownDefects = {%s}\n" % ",".join('"%s"' % d for d in listed)
-    rej = core.validate_traces(ctx, "Trace_OptionalTags", [{"inp": c["inp"], "out": got}], "replay", consts=consts)
+    rej = core.validate_traces(ctx, "Trace_OptionalTags", [{"inp": c["inp"], "out": got, "judge": False}], "replay", consts=consts)
     rej = [r for r in rej if r[1]["v"] != "finding"]
     if rej:
         print("VIOLATION property=C13 replay=- (%s)" % rej[0][1])
